@@ -25,7 +25,7 @@ from vf.core import hyp
 
 ID = 'C18'
 LEVEL = 'exploration'
-RULE = ('histories = sequences of ops over ids {A,B,(C)}: sub(id, duplex|simplex), unsub(id), pub, burst(k publishes back to back), break(id, unread?); all '
+RULE = ('histories = sequences of ops over ids {A,B,(C)}: sub(id, duplex|simplex), unsub(id), pub (event names cycle through the pre-defined work/request/response names and custom ones), burst(k publishes back to back), break(id, unread?); all '
         'histories of length <= 5 (quick) / <= 6 (thorough) over 2 ids enumerated, histories up to 40 ops over 3 ids drawn by '
         'Hypothesis. Non-trivial: >= 2 live subscribers across a publish AND >= 1 unsubscribe or breakage; distinct by history.')
 EXPLANATION = 'exhaustive_subspaces lists the history lengths enumerated completely over the 2-subscriber alphabet'
